@@ -34,10 +34,16 @@ LinearOK == (Live /\ Rec.op = "lin") => S(Rec.z12) = S(Rec.z1) \cup S(Rec.z2)
 \* op = "parent": z = ToZ(x,y), zp = ToZ(x>>1, y>>1)
 ParentOK == (Live /\ Rec.op = "parent") => S(Rec.zp) = M!ParentKey(S(Rec.z))
 \* op = "kids": z, k = the four keys of getQuadrantZs(z)
-KidsOK == (Live /\ Rec.op = "kids") =>
+KidsOK == (Live /\ Rec.op = "kids" /\ ~Rec.panicked) =>
             \A q \in 0..3 : /\ M!ParentKey(S(Rec.k[q + 1])) = S(Rec.z)
                             /\ (q % 2 = 1) = (0 \in S(Rec.k[q + 1]))
                             /\ (q \div 2 = 1) = (1 \in S(Rec.k[q + 1]))
+\* children of a pixel whose doubled address needs 33 bits are not encodable: reported, not aliased (x, y: the parent's address)
+KidsEncodableOK == (Live /\ Rec.op = "kids") => (Rec.panicked = (31 \in S(Rec.x) \/ 31 \in S(Rec.y)))
+\* op = "must": MustToZ(x, y), the entry point of every production caller
+MustOK == (Live /\ Rec.op = "must") =>
+            /\ Rec.panicked = ~M!Encodable(S(Rec.x), S(Rec.y))
+            /\ (~Rec.panicked => S(Rec.z) = M!Interleave(S(Rec.x), S(Rec.y)))
 \* op = "decode": arbitrary 64-bit z, fx/fy = FromZ(z): must re-encode to z
 DecodeOK == (Live /\ Rec.op = "decode") => M!Interleave(S(Rec.fx), S(Rec.fy)) = S(Rec.z)
 
